@@ -153,6 +153,13 @@ class Gen:
             l = '%s %s %s %s' % (nm, l1, l2, fs(k))
             self.lines.append((l, l))
             return nm
+        if ty == 'TP':
+            return self.twoport(rng.choice('ABGHYZ'), self.four_nodes())
+        if ty == 'SP':
+            kw = rng.choice(['pp', 'pm', 'ppp', 'pmm', 'ppm'])
+            if len(self.nodes) < len(kw) + 1:
+                return None
+            return self.summing(kw, rng.sample(self.nodes, len(kw) + 1))
         if ty == 'W':
             # a wire to a fresh node name, then something hangs off the new node
             new = 'w%d' % (self.count.get('W', 0) + 1)
@@ -163,6 +170,29 @@ class Gen:
             self.nodes.append(new)
             return 'W'
         raise ValueError(ty)
+
+    def twoport(self, letter, nodes):
+        """`TPn Np Nm Ncp Ncm <letter> p11 p12 p21 p22` with explicit rational parameters for which the code's
+        conversion to the stamped representation (A for A,B,G,H; Y for Y,Z) is defined"""
+        rng = self.rng
+        for _ in range(50):
+            p = [sv(rng) if rng.random() < 0.85 else Fraction(0) for _ in range(4)]
+            det = p[0] * p[3] - p[1] * p[2]
+            if letter in ('B', 'Z') and det == 0:
+                continue
+            if letter in ('G', 'H') and p[2] == 0:
+                continue
+            break
+        nm = self.name('TP')
+        l = '%s %s %s %s' % (nm, ' '.join(nodes), letter, ' '.join(fs(x) for x in p))
+        self.lines.append((l, l))
+        return nm
+
+    def summing(self, kw, nodes):
+        nm = self.name('SP')
+        l = '%s %s %s' % (nm, kw, ' '.join(nodes[:len(kw) + 1]))
+        self.lines.append((l, l))
+        return nm
 
     def build(self):
         rng = self.rng
@@ -213,6 +243,8 @@ KIND_SETS = [
 
 
 def directed_case(rng, kind, analysis=None, floating=True):
+    if kind == 'TL':
+        analysis = 'dc'
     """a small circuit in which a component of the given kind certainly appears, with all of its
     terminals on non-ground nodes when `floating` (so that no stamp entry is hidden by the ground
     row/column), optional arguments present, either orientation"""
@@ -257,6 +289,21 @@ def directed_case(rng, kind, analysis=None, floating=True):
         nm = g.name(kind)
         l = '%s %s %s %s %s' % (nm, perm[0], perm[1], rng.choice(g.vsources), fs(sv_))
         g.lines.append((l, l))
+    elif kind in ('Hamm', 'HL', 'HR', 'HC'):
+        # CCVS controlled by a component that is not a voltage source; the H line before or after it
+        cty = {'Hamm': 'AM', 'HL': 'L', 'HR': 'R', 'HC': 'C'}[kind]
+        cn = ['4', '3'] if rng.random() < 0.5 else ['3', '4']
+        if not floating:
+            cn = rng.choice([['3', '0'], ['0', '4']])
+        pos = len(g.lines)
+        cname = g.add('AM', cn) if cty == 'AM' else g.element(cty, cn)
+        nm = g.name('H')
+        l = '%s %s %s %s %s' % (nm, perm[0], perm[1], cname, fs(sv_))
+        g.lines.insert(pos if rng.random() < 0.5 else len(g.lines), (l, l))
+        if rng.random() < 0.3:      # a second source controlled by the same component
+            nm = g.name('H')
+            l = '%s %s %s %s %s' % (nm, '2', '0', cname, fs(sv(rng)))
+            g.lines.append((l, l))
     elif kind == 'TR':
         g.add('TR', perm[:2], sv_)
     elif kind == 'AM':
@@ -277,6 +324,14 @@ def directed_case(rng, kind, analysis=None, floating=True):
     elif kind == 'W':
         g.element('W')
         g.element('R', [g.nodes[-1], perm[0]])
+    elif kind.startswith('TP'):
+        g.twoport(kind[2], perm)
+    elif kind.startswith('SP'):
+        g.summing(kind[2:], perm)
+    elif kind == 'TL':
+        nm = g.name('TL')
+        l = '%s %s %s' % (nm, ' '.join(perm), fs(rv_))
+        g.lines.append((l, l))
     else:
         raise ValueError(kind)
     if analysis in ('ac', 's') and not any(m.split()[0][0] in 'CL' for (m, _) in g.lines):
@@ -289,12 +344,19 @@ def directed_case(rng, kind, analysis=None, floating=True):
             'subs': dict(g.subs), 'omega': g.omega, 'kinds': [kind], 'directed': kind}
 
 
-DIRECTED_KINDS = ['E', 'Eac', 'Eopamp', 'EopampRo', 'G', 'F', 'H', 'TF', 'GY', 'TR', 'AM', 'K', 'Cic', 'Lic', 'I', 'W']
+DIRECTED_KINDS = ['E', 'Eac', 'Eopamp', 'EopampRo', 'G', 'F', 'H', 'TF', 'GY', 'TR', 'AM', 'K', 'Cic', 'Lic', 'I', 'W',
+                  'Hamm', 'HL', 'HR', 'HC', 'TPA', 'TPB', 'TPG', 'TPH', 'TPY', 'TPZ', 'SPpp', 'SPpm', 'SPppp', 'SPpmm', 'SPppm', 'TL']
 
 
-def random_case(rng, analysis=None, max_nodes=5):
+KIND_SETS_EXT = [
+    ['R', 'C', 'V', 'I', 'TP', 'SP'],
+    ['R', 'L', 'C', 'V', 'TP', 'TF', 'G'],
+]
+
+
+def random_case(rng, analysis=None, max_nodes=5, ext=False):
     analysis = analysis or rng.choice(['dc', 's', 'ivp', 'ac'])
-    kinds = list(rng.choice(KIND_SETS))
+    kinds = list(rng.choice(KIND_SETS + KIND_SETS_EXT if ext else KIND_SETS))
     nn = rng.randint(2, max_nodes)
     names = None
     if rng.random() < 0.3:
